@@ -302,6 +302,41 @@ def check_tag_consultation(chk, ix):
     chk.require_instances("G5", 7)
 
 
+def check_container_children_concrete(chk, ix, rule="G5"):
+    """G5 (c): a feature whose only selected scenario lives inside a rule is selected - the children that count are ALL its
+    run items (scenarios, outlines and rules), not the direct scenarios alone.  Concrete children, sibling lists present."""
+    chk.rule(rule, WHAT["G5"])
+    fc = ix.cls("behave.model:Feature")
+    f = fc.lookup("should_run_with_tags")
+    for placement in ("scenario inside a rule", "direct scenario", "nowhere"):
+        st = State()
+        st.frames = []
+        te = st.alloc(HObj("TagExprStub", {}, label="tag_expression"))
+        direct = st.alloc(HObj("ChildStub", {"sel": placement == "direct scenario"}, label="direct scenario"))
+        rule_ = st.alloc(HObj("ChildStub", {"sel": placement == "scenario inside a rule"}, label="rule"))
+
+        def lst(items, label):
+            return st.alloc(HObj("list", kind="list", items=list(items), label=label))
+        me = st.alloc(HObj(fc, {"run_items": lst([direct, rule_], "run_items"), "scenarios": lst([direct], "scenarios (direct children)"),
+                                "rules": lst([rule_], "rules"), "tags": (), "parent": None, "background": None}, label="feature"))
+        it = Interp(ix, stubs={"TagExprStub.check": lambda i, s, a, k, n: [(s, "val", False)],
+                               "ChildStub.should_run_with_tags": lambda i, s, a, k, n: [(s, "val", s.obj(a[0]).fields["sel"])],
+                               "ScenarioContainer.walk_scenarios": lambda i, s, a, k, n: [(s, "val", lst([direct], "walk"))]},
+                    attr_stubs={"TagAndStatusStatement.effective_tags": lambda i, s, b, n: [(s, "val", ())]}, name="Feature.should_run_with_tags")
+        outs = it.call_function(st, f, [te], {}, None, self_val=me)
+        chk.absorb(it)
+        chk.instance(rule)
+        if len(outs) != 1 or outs[0][1] != "val" or not isinstance(outs[0][2], bool):
+            raise AnalysisError("Feature.should_run_with_tags not evaluable on concrete children: %r" % [(k, v) for _, k, v in outs][:3])
+        want = placement != "nowhere"
+        if outs[0][2] is want:
+            chk.ok(rule, {"selected": placement, "feature selected": want}, nontrivial_key=("concrete", placement))
+        else:
+            _fail(chk, rule, f, "selected %s -> %s" % (placement, outs[0][2]),
+                  "a feature whose own tags do not match and whose selected scenario is %s answers should_run_with_tags = %s, expected %s "
+                  "(a feature runs - hooks and all - exactly when something inside it is selected)" % (placement, outs[0][2], want), outs[0][0].path)
+
+
 def check_builder_effects(chk, ix, rules=("B3", "G3", "G2")):
     """make_scenario_for on tokens: what it hands to Scenario(...), and what it mutates."""
     for r in rules:
